@@ -4,6 +4,7 @@
 #if defined(VARIANT_A)
 #include "libapi.h"
 #include "docgen.h"
+#include "simfs.h"
 
 namespace {
 
@@ -44,6 +45,7 @@ struct PoolEngine : Engine {
 		if (k == "INIT") return true;
 		if (k == "DRAIN") return m.depth > 0;
 		if (k == "FREE") return m.depth == 0 && m.alive;
+		if (k == "CLI") return m.depth == 0;      // the command line tool's own main(): init .. drain, free - from outside any bracket
 		if (k == "CONVERT" || k == "CRITIC" || k == "META") return m.depth > 0;
 		if (k == "PARSE_HOLD") return m.depth > 0 && !m.held[s];
 		if (k == "INSPECT") return m.held[s] && m.valid[s];
@@ -55,7 +57,7 @@ struct PoolEngine : Engine {
 		int s = (int)op.geti("slot") % 3;
 		if (k == "INIT") { m.depth++; m.alive = true; }
 		else if (k == "DRAIN") { m.depth--; if (m.depth == 0) for (int i = 0; i < 3; i++) m.valid[i] = false; }
-		else if (k == "FREE") m.alive = false;
+		else if (k == "FREE" || k == "CLI") m.alive = false;
 		else if (k == "PARSE_HOLD") { m.held[s] = true; m.valid[s] = true; }
 		else if (k == "RELEASE") { m.held[s] = false; m.valid[s] = false; }
 	}
@@ -119,6 +121,12 @@ struct PoolEngine : Engine {
 			else if (k < 34) o = mk("DRAIN");
 			else if (k < 40) o = mk("FREE");
 			else if (k < 58) o = conv();
+			else if (k < 59 && m.depth == 0 && w.chance(1, 2)) {
+				// main() of the command line tool, in-process: single file (init, init?, convert, drain, free) or batch mode (init, {init, convert, drain}*, drain, free)
+				o = mk("CLI"); o["batch"] = w.chance(1, 2);
+				Json fl = Json::array(); int nf = o.getb("batch") ? (int)w.range(1, 3) : 1; for (int i = 0; i < nf; i++) fl.push((int64_t)w.below((uint64_t)ndocs));
+				o["files"] = fl; o["fmt"] = w.chance(2, 3) ? FMT_HTML : FMT_LATEX; o["env"] = gen_env(en);
+			}
 			else if (k < 60) { o = mk("CRITIC"); o["doc"] = (int64_t)w.below((uint64_t)ndocs); o["accept"] = w.chance(1, 2); }      // other token consumers inside the bracket
 			else if (k < 62) { o = mk("META"); o["doc"] = (int64_t)w.below((uint64_t)ndocs); }
 			else if (k < 76) { o = mk("PARSE_HOLD"); o["slot"] = (int64_t)w.below(3); o["doc"] = (int64_t)w.below((uint64_t)ndocs); o["ext"] = (int64_t)gen_ext(w, false); }
@@ -138,6 +146,7 @@ struct PoolEngine : Engine {
 		mmd6_verif_dstring_start = (size_t)kn.geti("dstring_start", 1024);
 		if (!mmd6_verif_dstring_start) mmd6_verif_dstring_start = 1;
 		g_sim.realloc_mode = (int)kn.geti("realloc", 0);
+		simfs_reset();
 		std::map<void *, Sim::Block> blocks;
 		g_sim.blocks = &blocks;
 		g_sim.track_blocks = true;
@@ -199,6 +208,30 @@ struct PoolEngine : Engine {
 				o["out"] = digest(out);
 				if (verbose) o["text"] = out.substr(0, 4000);
 				g_log.ev("convert", digest(out));
+			} else if (kind == "CLI") {
+				apply_env(op);
+				std::vector<std::string> args = {"multimarkdown", "-t", op.geti("fmt") == FMT_LATEX ? "latex" : "html"};
+				std::vector<std::string> outps;
+				const Json & fl = op.at("files");
+				if (op.getb("batch")) args.push_back("-b"); else { args.push_back("-o"); args.push_back("/sim/p/out0"); outps.push_back("/sim/p/out0"); }
+				for (size_t i = 0; i < fl.size(); i++) {
+					std::string path = "/sim/p/f" + std::to_string(i) + ".txt";
+					SimFile f; f.versions.push_back(docs[(size_t)fl[i].num() % docs.size()].s);
+					g_sim.files[path] = f;
+					args.push_back(path);
+					if (op.getb("batch")) outps.push_back("/sim/p/f" + std::to_string(i) + (op.geti("fmt") == FMT_LATEX ? ".tex" : ".html"));
+				}
+				std::vector<char *> argv; for (auto & a2 : args) argv.push_back(&a2[0]); argv.push_back(nullptr);
+				int rc = IN_LIB(mmd_cli_main((int)args.size(), argv.data()));
+				std::string all = "rc=" + std::to_string(rc);
+				for (auto & op2 : outps) { auto it = g_sim.files.find(op2); all += "|" + (it == g_sim.files.end() ? std::string("<missing>") : digest(it->second.written)); }
+				o["out"] = digest(all);
+				g_log.ev("cli", o.gets("out"));
+				was_freed = true;
+				probes["cli_main_runs"]++;
+				// main() ends with drain + free: nothing of the pool may be left
+				size_t pb = pool_bytes();
+				if (pb) { viol = Json::object(); viol["clause"] = "pool_memory_live_after_free"; viol["detail"] = std::to_string(pb) + " bytes attributed to the pool still live after the command line tool's main() returned"; viol["op"] = (int64_t)k; }
 			} else if (kind == "CRITIC") {
 				DString * d = IN_LIB(d_string_new(docs[(size_t)op.geti("doc") % docs.size()].s.c_str()));
 				if (op.getb("accept")) IN_LIB_V(mmd_critic_markup_accept(d)); else IN_LIB_V(mmd_critic_markup_reject(d));
@@ -264,6 +297,11 @@ struct PoolEngine : Engine {
 			p["docs"] = docs;
 			Json c = op; c["doc"] = 0;
 			ops.push(mk("INIT")); ops.push(c); ops.push(mk("DRAIN")); ops.push(mk("FREE"));
+		} else if (kind == "CLI") {
+			Json docs = Json::array(); Json c = op; Json fl = Json::array();
+			for (auto & f : op.at("files").a) { docs.push(plan.at("docs")[(size_t)f.num() % plan.at("docs").size()]); fl.push((int64_t)docs.size() - 1); }
+			c["files"] = fl; p["docs"] = docs;
+			ops.push(c);
 		} else if (kind == "PARSE_HOLD" || kind == "INSPECT" || kind == "RELEASE") {
 			// find the parse that filled this slot
 			int s = (int)op.geti("slot") % 3;
@@ -288,11 +326,11 @@ struct PoolEngine : Engine {
 		const Json & ops = plan.at("ops");
 		const Json & outs = out.result.at("ops");
 		for (size_t k = 0; k < ops.size() && k < outs.size(); k++) {
-			if (ops[k].gets("k") != "CONVERT" && ops[k].gets("k") != "CRITIC" && ops[k].gets("k") != "META") continue;
+			if (ops[k].gets("k") != "CONVERT" && ops[k].gets("k") != "CRITIC" && ops[k].gets("k") != "META" && ops[k].gets("k") != "CLI") continue;
 			Json iso = isolate(plan, (int)k);
 			ChildOutcome r = ctx.run_ref(iso);
 			if (r.status != "finished") continue;      // the reference itself fails: input-level, not this property's business
-			std::string want = r.result.at("ops")[1].gets("out");
+			std::string want = r.result.at("ops")[ops[k].gets("k") == "CLI" ? 0 : 1].gets("out");
 			if (want != outs[k].gets("out")) {
 				Json v = Json::object();
 				v["clause"] = "convert_differs_from_fresh_process"; v["op"] = (int64_t)k;
